@@ -77,7 +77,10 @@ Proof. exact ns2_needs_eval. Qed.
 Print Assumptions C06_ns_grad2_needs_evaluation.
 
 (* the premise on the grid holds for the code's ParameterGrid formulas
-   (round_to_lower / round_to_upper_grid_point, regenerated kernels) *)
+   lb + intD*delta / lb + (intD+1)*delta (regenerated kernels) BEFORE the two
+   np.around steps of the code (np.around(floatD, 9), np.around(gp, decimals)):
+   that those roundings keep distinct grid values distinct is NOT proved here
+   (it fails only when `decimals` is coarser than the grid spacing) *)
 Theorem C06_code_grid :
   forall lb d x y : Z, zlow lb d x = zlow lb d y -> zup lb d x = zup lb d y.
 Proof. exact zgrid_ok. Qed.
@@ -158,6 +161,55 @@ Theorem C06_i3_ratio_cache_refines_full :
       i3observations W C (i3init W C s0) ops = srun W C (sinit W C s0) ops.
 Proof. exact i3refines. Qed.
 Print Assumptions C06_i3_ratio_cache_refines_full.
+
+(* T5' / T7': the refinement theorems T1, T5, T7 compare with specifications
+   that keep what the objects are GIVEN between operations (the trial and the
+   source it was initialised for, the ns-gradients of the last evaluation, the
+   null-hypothesis value of the trial, the weight factors of the last
+   evaluation) and are therefore not history-free by themselves.  The property
+   itself — after ANY history a new trial behaves like on freshly built objects
+   — is stated for each machine: T2/T3/T4/T6 (single dataset), and here for the
+   i3 ratio machine and the two-dataset / ns-profile machine. *)
+Theorem C06_i3_evaluate_as_fresh :
+  forall (W : world) (C : cfg),
+    (forall x y, glow W x = glow W y -> gup W x = gup W y) ->
+    c_gfp_srcevt C || (c_ngfp C <=? 0) = true ->
+    forall (s0 : src W) (pre : list (op W)) (d : data W) (mid : list (op W)) (ns x : Z),
+      forallb (is_query W) mid = true ->
+      last (i3observations W C (i3init W C s0) (pre ++ InitTrial W d :: mid ++ [Evaluate W ns x])) (ONone W) =
+      last (i3observations W C (i3init W C (src_after W s0 pre)) [InitTrial W d; Evaluate W ns x]) (ONone W).
+Proof. exact i3_eval_fresh. Qed.
+Print Assumptions C06_i3_evaluate_as_fresh.
+
+Theorem C06_i3_ns_grad2_as_fresh :
+  forall (W : world) (C : cfg),
+    (forall x y, glow W x = glow W y -> gup W x = gup W y) ->
+    c_gfp_srcevt C || (c_ngfp C <=? 0) = true ->
+    forall (s0 : src W) (pre : list (op W)) (d : data W) (mid : list (op W)) (ns x : Z) (tail : list (op W)) (n : Z),
+      forallb (is_query W) mid = true -> forallb (is_ns2 W) tail = true ->
+      last (i3observations W C (i3init W C s0)
+              (pre ++ InitTrial W d :: (mid ++ Evaluate W ns x :: tail) ++ [NsGrad2 W n])) (ONone W) =
+      last (i3observations W C (i3init W C (src_after W s0 pre)) [InitTrial W d; Evaluate W ns x; NsGrad2 W n]) (ONone W).
+Proof. exact i3_ns2_fresh. Qed.
+Print Assumptions C06_i3_ns_grad2_as_fresh.
+
+(* two datasets, with or without the ns-profile function: [initialise both
+   trials; evaluate] after ANY history equals the same on freshly built objects
+   for the current source hypothesis.  With the ns-profile function the premise
+   says that the null-hypothesis evaluation of the new trial returns a value on
+   fresh objects (if it raises, initialize_for_new_trial raises and _logL_0 keeps
+   the previous trial's value — the caller sees the exception). *)
+Theorem C06_multi_evaluate_as_fresh :
+  forall (W : world) (C : cfg) (MW : mworld W) (MC : mcfg),
+    (forall x y, glow W x = glow W y -> gup W x = gup W y) ->
+    c_gfp_srcevt C || (c_ngfp C <=? 0) = true ->
+    forall (s0 : src W) (pre : list (mop W)) (d1 d2 : data W) (ns x : Z),
+      m_profile MC = false \/
+      hd (MNone W MW) (mobservations W C MW MC (minit W C MW (msrc_after W s0 pre)) [MInit W d1 d2]) = MInitO W MW (Ok 0) ->
+      last (mobservations W C MW MC (minit W C MW s0) (pre ++ [MInit W d1 d2; MEval W ns x])) (MNone W MW) =
+      last (mobservations W C MW MC (minit W C MW (msrc_after W s0 pre)) [MInit W d1 d2; MEval W ns x]) (MNone W MW).
+Proof. exact multi_eval_fresh. Qed.
+Print Assumptions C06_multi_evaluate_as_fresh.
 
 (* The remaining guard of T2 / T3 (a source change is followed by a new trial) is necessary for the code as it is: *)
 Theorem C06_source_change_without_new_trial_refuted :
